@@ -703,6 +703,9 @@ def gen_random_cases(rng, n, strict, mode="direct", pools=(COLLISION_FREE, ADVER
         return gen_alias_nested_cases(rng, n)
     if mode == "limited":
         return gen_limited_cases(rng, n, strict)
+    forest = mode == "forest"     # several top-level trees: the project, external libraries kept in the graph, a sibling of the root with a longer name
+    if forest:
+        mode = "direct"
     cases = []
     large = mode == "large"       # beyond the sizes of hand-written examples: up to 45 modules, 7 levels, 6 subjects x 6 objects, 30 imports
     if large:
@@ -711,6 +714,12 @@ def gen_random_cases(rng, n, strict, mode="direct", pools=(COLLISION_FREE, ADVER
         pool = LARGE_POOL if large else rng.choice(pools)
         nodes = rand_tree(rng, pool, max_nodes=rng.choice([25, 35, 45]), max_depth=rng.choice([5, 7, 10])) if large else \
             rand_tree(rng, pool, max_nodes=rng.choice([5, 8, 12]))
+        if forest:
+            extra = set()
+            for top in rng.sample(["os", "ext", "rx", "r_", "R"], rng.randint(1, 3)):
+                sub = rand_tree(rng, pool, max_nodes=rng.choice([2, 4]), root=top)
+                extra.update(sub[: rng.randint(1, len(sub))] + [top])
+            nodes = sorted(set(nodes) | extra)
         if mode == "scan":
             inner = {x for x in nodes if any(m.startswith(x + ".") for m in nodes)}
             leaves = [x for x in nodes if x not in inner]
@@ -725,7 +734,7 @@ def gen_random_cases(rng, n, strict, mode="direct", pools=(COLLISION_FREE, ADVER
         fp = pick_filters(rng, nodes, strict, kmax=6 if large else 3)
         if fp is None:
             continue
-        cases.append(dict(nodes=nodes, edges=edges, specs=all_shapes(*fp), mode=mode, tag=("rand", strict, "large" if large else mode)))
+        cases.append(dict(nodes=nodes, edges=edges, specs=all_shapes(*fp), mode=mode, tag=("rand", strict, "large" if large else "forest" if forest else mode)))
     return cases
 
 
